@@ -516,6 +516,84 @@ theorem historical_keyword_collision :
     directCall exObj "echo" [] [("context", 0)] = .value 10 := by
   decide
 
+/-! ## locks: what a proxy forwards, and what an incompatible lock state does to a call -/
+
+/-- the blocking proxy and its non-blocking companion always forward the same token, through any history of
+`lock()` / `unlock()` / `force_unlock()` replies -/
+theorem proxy_tokens_in_sync (evs : List LockEvent) (p : ProxyTokens) (h : p.blocking = p.nonBlocking) :
+    (evs.foldl ProxyTokens.step p).blocking = (evs.foldl ProxyTokens.step p).nonBlocking := by
+  induction evs generalizing p with
+  | nil => exact h
+  | cons e es ih =>
+    apply ih
+    cases e <;> simp only [ProxyTokens.step] <;> split <;> first | rfl | exact h
+
+/-- … and after a granted `lock()` that token is exactly the one the lock request obtained -/
+theorem granted_token_is_forwarded (p : ProxyTokens) (mine : Token) :
+    (p.step (.lockReply mine (some mine))) = ⟨some mine, some mine⟩ := by
+  simp [ProxyTokens.step]
+
+example : ([LockEvent.lockReply ⟨"cli", "$lock_1"⟩ (some ⟨"cli", "$lock_1"⟩), .unlockReply (some ⟨"srv", "__ACCESS_DENIED__"⟩)].foldl
+    ProxyTokens.step {}) = ⟨some ⟨"cli", "$lock_1"⟩, some ⟨"cli", "$lock_1"⟩⟩ := by decide
+
+/-- **A call whose token does not match the object's lock is refused** — for both placements and both kinds of proxy the
+caller gets "The object is locked by another proxy", and the method is not invoked (`dispatch` never consults `f`) -/
+theorem locked_call_refused (pl : Placement) (P : Pickle V W) (X : Excs V) (mode : Mode) (params : List String)
+    (cli srv : Node) (cc sc : Conn) (o : Obj V) (iface : List String) (futureAddr objAddr : Addr) (rid attr : String)
+    (args : List V) (kwargs : List (String × V)) (token : Option Token) (held : Token)
+    (hwf : WellFormed pl cli srv cc sc futureAddr objAddr)
+    (hattr : attr ∈ iface) (hheld : o.lock = some held) (hne : token ≠ some held)
+    (hkw : ∀ kv ∈ kwargs, kv.1 ∉ params) (hto : ∀ kv ∈ kwargs, kv.1 ≠ timeoutKw)
+    (hp : ∀ v ∈ args ++ kwargs.map (·.2), P.decode (P.encode v) = some v) :
+    proxyCall pl P X mode params cli srv cc sc o (mkStubs iface) futureAddr objAddr rid attr args kwargs token
+      = .lockedError := by
+  have hstub := stub_sends_own_name iface attr hattr
+  have hk := stubKwargs_ok mode params kwargs hkw hto
+  have hlock : ¬ (o.lock = none ∨ o.lock = token) := by
+    rw [hheld]
+    intro h
+    rcases h with h | h
+    · cases h
+    · exact hne h.symm
+  cases pl with
+  | sameContext =>
+    obtain ⟨hfc, hoc, hfut⟩ := hwf.sameCtx rfl
+    have hobj := hwf.objReg
+    have hroute1 : srv.route (mkRequest futureAddr objAddr rid attr args kwargs token) = .ok .localDeliver := by
+      simp [Node.route, mkRequest, hoc]
+    have hdel1 : srv.deliver (mkRequest futureAddr objAddr rid attr args kwargs token) = .ok objAddr.obj := by
+      simp [Node.deliver, mkRequest, hoc, hobj]
+    have hdisp : dispatch X o (mkRequest futureAddr objAddr rid attr args kwargs token)
+        = some (mkReply (mkRequest futureAddr objAddr rid attr args kwargs token) .locked none) := by
+      simp [dispatch, mkRequest, hlock]
+    have hroute2 : srv.route (mkReply (mkRequest futureAddr objAddr rid attr args kwargs token) .locked none)
+        = .ok .localDeliver := by simp [Node.route, mkReply, mkRequest, hfc]
+    have hdel2 : srv.deliver (mkReply (mkRequest futureAddr objAddr rid attr args kwargs token) .locked none)
+        = .ok futureAddr.obj := by simp [Node.deliver, mkReply, mkRequest, hfc, hfut]
+    simp only [proxyCall, localCall, hstub, hk, hroute1, hdel1, hdisp, hroute2, hdel2]
+    simp [futureHandle, mkReply, wait]
+  | peerContext =>
+    obtain ⟨hfc, hfut, hl1, hl2⟩ := hwf.peerCtx rfl
+    have hobj := hwf.objReg
+    have ht1 := transfer_ok P cli srv objAddr.ctx sc (mkRequest futureAddr objAddr rid attr args kwargs token) hl1 hfc rfl
+      (by simpa [mkRequest, Body.values] using hp)
+    simp only [mkRequest] at ht1
+    have hdel1 : srv.deliver ({ src := ⟨sc.alias, futureAddr.obj⟩, dst := ⟨srv.name, objAddr.obj⟩, reqId := rid, body := .methodRequest attr args kwargs token } : Msg V) = .ok objAddr.obj := by
+      simp [Node.deliver, hobj]
+    have hdisp : dispatch X o ({ src := ⟨sc.alias, futureAddr.obj⟩, dst := ⟨srv.name, objAddr.obj⟩, reqId := rid, body := .methodRequest attr args kwargs token } : Msg V)
+        = some { src := ⟨srv.name, objAddr.obj⟩, dst := ⟨sc.alias, futureAddr.obj⟩, reqId := rid, body := .methodReply .locked none } := by
+      simp [dispatch, mkReply, hlock]
+    have ht2 := transfer_ok P srv cli sc.alias cc ({ src := ⟨srv.name, objAddr.obj⟩, dst := ⟨sc.alias, futureAddr.obj⟩, reqId := rid, body := .methodReply .locked none } : Msg V) hl2 rfl rfl
+      (by intro w hw; simp [Body.values] at hw)
+    have hdel2 : cli.deliver ({ src := ⟨cc.alias, objAddr.obj⟩, dst := ⟨cli.name, futureAddr.obj⟩, reqId := rid, body := .methodReply .locked none } : Msg V) = .ok futureAddr.obj := by
+      simp [Node.deliver, hfut]
+    simp only [proxyCall, peerCall, hstub, hk, mkRequest, ht1, hdel1, hdisp, ht2, hdel2]
+    simp [futureHandle, wait]
+
+example : proxyCall .peerContext exP exX .blocking [] exCli exSrv exCliConn exSrvConn
+    { exObj with lock := some ⟨"other", "$lock_1"⟩ } (mkStubs ["echo"]) ⟨"cli", "$future_1"⟩ ⟨"srv", "obj"⟩ "r1" "echo" [1] [] none
+    = .lockedError := by decide
+
 /-! ## `rpc_timeout` -/
 
 /-- the blocking stub keeps `rpc_timeout` for itself and forwards every other keyword unchanged -/
